@@ -22,7 +22,8 @@ TRUSTED = [
 ASSUMPTIONS = [
     "reversibility (detailed balance of every edge's P w.r.t. the root distribution) and P(s)P(t)=P(s+t) are hypotheses of the "
     "theorems; the harness measures them on the extracted float64 matrices and reports the residuals",
-    "float rounding bounded by the stated tolerance, not modelled",
+    "float rounding bounded by the stated tolerance, not modelled: |delta lnL| <= 1e-8*|lnL| + sum over columns of 2e-14/lh(column) "
+    "(absolute error of the float64 matrix exponential relative to the column likelihood); problems with a column likelihood <= 0 are skipped and counted",
 ]
 
 REL = 1e-8
@@ -299,9 +300,25 @@ def _rel_sig(tname, base, spec2):
     return f"rel:{t}:{base['kind']}:bins={'y' if base.get('bins', 1) > 1 else 'n'}"
 
 
+def _slack(lf):
+    """rounding allowance: every float64 P entry carries an absolute error of about 1e-15 from the matrix
+    exponential, so a column likelihood lh has relative error up to ~2e-14/lh and lnL an absolute error up to the
+    sum of that over the columns (negligible for nucleotide problems, matters for 61-state columns ~1e-10)"""
+    fl = [float(x) for x in lf.get_full_length_likelihoods()]
+    if any((not x > 0.0) or x != x for x in fl):
+        return float("inf")
+    return sum(2e-14 / x for x in fl)
+
+
 def _lnl(spec):
     lf = U.build_lf(spec, None)
     return lf, float(lf.lnL)
+
+
+def _holds(l2, want, slack):
+    if slack == float("inf"):
+        return None  # a column likelihood at or below the rounding floor: the comparison is not meaningful
+    return abs(l2 - want) <= REL * abs(want) + 1e-12 + slack
 
 
 def _pairs(ctx, rng, plan, out, collect=None, only=None):
@@ -319,6 +336,7 @@ def _pairs(ctx, rng, plan, out, collect=None, only=None):
         try:
             lf0 = U.build_lf(base, rng)  # generates the rules
             l0 = float(lf0.lnL)
+            slack0 = _slack(lf0)
         except Exception as e:
             add_failure(out, "spec", "likelihood function construction raised", C02._slim(base), "a likelihood function",
                         f"{type(e).__name__}: {e}", sig=f"build-raised:{kind}:{type(e).__name__}")
@@ -331,7 +349,7 @@ def _pairs(ctx, rng, plan, out, collect=None, only=None):
             jobs = [j for j in jobs if j[0] in only]
         if limit is not None and len(jobs) > limit:
             jobs = rng.sample(jobs, limit)
-        ref = {id(base): l0}
+        ref = {}
         ncollected = 0
         for tname, thunk in jobs:
             inp = dict(relation=tname, original=C02._slim(base))
@@ -357,17 +375,22 @@ def _pairs(ctx, rng, plan, out, collect=None, only=None):
                 if orig is not base:
                     key = (orig["newick"], len(orig["rules"]))
                     if key not in ref:
-                        ref[key] = _lnl(orig)[1]
-                    lref = ref[key]
+                        lfo, lo = _lnl(orig)
+                        ref[key] = (lo, _slack(lfo))
+                    lref, sref = ref[key]
                 else:
-                    lref = l0
+                    lref, sref = l0, slack0
                 lf2, l2 = _lnl(spec2)
+                slack = k * sref + _slack(lf2)
             except Exception as e:
                 add_failure(out, "spec", f"transformed problem ({tname}) raised", inp, "a likelihood function",
                             f"{type(e).__name__}: {e}", sig=f"rel-raised:{tname}:{kind}:{type(e).__name__}")
                 continue
             want = k * lref
-            if not (abs(l2 - want) <= REL * abs(want) + 1e-12):
+            ok = _holds(l2, want, slack)
+            if ok is None:
+                bump(out, "ill_conditioned_skipped", tname)
+            elif not ok:
                 add_failure(out, "spec", f"lnL changes under {tname}", inp, want, l2, sig=_rel_sig(tname, orig, spec2))
             else:
                 out["nontrivial"].add((name, base["seed"], tname, spec2.get("target"), spec2.get("split_edge"), spec2.get("split_piece")))
@@ -473,16 +496,16 @@ def match_finding(f, k):
 
 def _recheck(inp):
     out = new_outcome()
-    _, l0 = _lnl(inp["original"])
+    lf0, l0 = _lnl(inp["original"])
     try:
-        _, l2 = _lnl(inp["transformed"])
+        lf2, l2 = _lnl(inp["transformed"])
     except Exception as e:
         kind = inp["original"]["kind"]
         add_failure(out, "spec", f"transformed problem ({inp['relation']}) raised", inp, "a likelihood function",
                     f"{type(e).__name__}: {e}", sig=f"rel-raised:{inp['relation']}:{kind}:{type(e).__name__}")
         return out["failures"][0]
     want = inp.get("k", 1) * l0
-    if not (abs(l2 - want) <= REL * abs(want) + 1e-12):
+    if _holds(l2, want, inp.get("k", 1) * _slack(lf0) + _slack(lf2)) is False:
         base = inp["original"]
         add_failure(out, "spec", f"lnL changes under {inp['relation']}", inp, want, l2,
                     sig=_rel_sig(inp["relation"], base, inp["transformed"]))
